@@ -987,6 +987,10 @@ package hermes
 //@   ensures[C10] notdue: !g.AUTOFERT && !due() ==> unchanged(g.NFOS, g.NAOS, g.DSUMM, g.NH4Sum, g.NFERTSIM, g.NDG.Index)
 //@   ensures[C10] schedule: !g.AUTOFERT ==> unchanged(g.ZTDG, g.NSAS, g.NLAS, g.NDIR, g.NH4N)
 //@   ensures[C10,C07] otherlayers: !g.AUTOFERT ==> forall(k, 1, 21, g.NFOS[k] == old(g.NFOS[k]) && g.NAOS[k] == old(g.NAOS[k])) && unchanged(g.C1)
+// C10/C02: also with automatic fertilisation the mineral part of a fertiliser goes to the applied-fertiliser pool (and
+// reaches the soil solution through dissolution in `mineral`), never directly into the mineral N of a layer
+//@   serves C02
+//@   ensures[C10,C02] autopool: g.AUTOFERT ==> unchanged(g.C1)
 //@   ensures[C16,C07] autononneg: g.AUTOFERT && (forall(k, 0, 300, g.NDIR[k] >= 0)) ==> g.DSUMM >= old(g.DSUMM) && g.NFERTSIM >= old(g.NFERTSIM)
 
 // tillage of the day: when due the pools are mixed evenly down to the tillage depth, which preserves their sums
